@@ -28,10 +28,7 @@ fn ffi_call(f: extern "C" fn(*const Buffer, *mut Buffer) -> bool, input: &[u8]) 
     if !ok {
         return None;
     }
-    if out.ptr.is_null() {
-        return Some(vec![]);
-    }
-    Some(unsafe { std::slice::from_raw_parts(out.ptr, out.len) }.to_vec())
+    Some(gens::ffi_take_output(out.ptr, out.len))
 }
 
 /// the same C call with ONE Buffer struct serving as input and as output (a C caller overwriting its
@@ -46,7 +43,11 @@ fn ffi_call_in_place(f: extern "C" fn(*const Buffer, *mut Buffer) -> bool, input
     if b.ptr.is_null() || b.len == 0 {
         return Some(vec![]);
     }
-    Some(unsafe { std::slice::from_raw_parts(b.ptr, b.len) }.to_vec())
+    if b.ptr == input.as_ptr() {
+        // still designating the caller's own input
+        return Some(unsafe { std::slice::from_raw_parts(b.ptr, b.len) }.to_vec());
+    }
+    Some(gens::ffi_take_output(b.ptr, b.len))
 }
 
 pub fn check_poseidon(v: &[Fx], o: &mut Outcome) {
@@ -156,7 +157,7 @@ impl Property for C09 {
     }
     fn rule(&self) -> String {
         "cases: vectors in Fr^n (n=1..8, boundary-weighted, incl. all-equal) and byte strings (block-edge lengths 135/136/137/271.., long patterns, lengths 2^k-1 / 2^k / 2^k+1 for k = 10..17 (20 in the thorough tier), 100000, 200000); \
-         each compared on three entry points (typed, byte-level with readers handing out 1 / 7 / 33 bytes per call or everything at once and writers accepting as little, FFI with separate and with one shared Buffer struct) against the BigUint reference Poseidon / own Keccak sponge; KeccakSeq / PoseidonSeq: related inputs (equal length, one byte / one element changed, mostly near the end so that a long prefix is shared) hashed back to back on one thread in the order s, s', s, s' — each result against the reference (purity across calls). \
+         each compared on three entry points (typed, byte-level with readers handing out 1 / 7 / 33 bytes per call or everything at once and writers accepting as little, FFI with separate and with one shared Buffer struct) against the BigUint reference Poseidon / own Keccak sponge; the last 24 outputs handed out through the C interface are re-read after every later C call; KeccakSeq / PoseidonSeq: related inputs (equal length, one byte / one element changed, mostly near the end so that a long prefix is shared) hashed back to back on one thread in the order s, s', s, s' — each result against the reference (purity across calls). \
          non-trivial = Poseidon with n>=4 or a boundary element, or a byte string whose length is within 1 of a multiple of 136 (>=135) or > 136; distinct by case content".into()
     }
     fn assumptions(&self) -> Vec<String> {
@@ -261,6 +262,11 @@ impl Property for C09 {
                         return o;
                     }
                 }
+            }
+        }
+        if !o.failed() {
+            if let Some(m) = gens::ffi_outputs_breach() {
+                vfail!(o, "{m}");
             }
         }
         o
